@@ -43,6 +43,7 @@ type StatParams struct {
 	Submitters int    `json:"submitters,omitempty"` // pipeline: concurrent submitting goroutines
 	PerRound   int    `json:"per_round,omitempty"`  // pipeline: label-set slots per submitter and round
 	Racers     int    `json:"racers,omitempty"`     // direct: goroutines per barrier (2 or 3)
+	BudgetMs   int    `json:"budget_ms,omitempty"`  // stop early (fewer rounds) when this much wall time is used; 0 = no cap
 	Note       string `json:"note,omitempty"`
 }
 
@@ -82,6 +83,10 @@ func pipelineRun(t *testing.T, p StatParams) StatResult {
 	res := StatResult{}
 	var puts atomic.Int64
 	for round := 0; round < p.Rounds; round++ {
+		if p.BudgetMs > 0 && time.Since(t0) > time.Duration(p.BudgetMs)*time.Millisecond {
+			res.Rounds = round
+			break
+		}
 		var wg sync.WaitGroup
 		for s := 0; s < p.Submitters; s++ {
 			wg.Add(1)
@@ -193,6 +198,10 @@ func directRun(t *testing.T, p StatParams) StatResult {
 	fp := ls.Fingerprint()
 	seq := int64(0)
 	for round := 1; round <= p.Rounds; round++ {
+		if p.BudgetMs > 0 && round%1024 == 0 && time.Since(t0) > time.Duration(p.BudgetMs)*time.Millisecond {
+			res.Rounds = round - 1
+			break
+		}
 		// the stored version is older than every racer's version; racer i holds version i (ascending UpdatedAt);
 		// which racer holds the newest rotates
 		var newest int64
